@@ -280,7 +280,7 @@ func (e *engine) labels(c Case, img []byte, inside int) (bool, []string) {
 		} else if b != nil && c.Tail == "" {
 			lab["hit="+b.structAt(m.Off)] = true
 		}
-		if m.K == "set" && (m.VK == "self" || m.VK == "other" || m.VK == "other+8") {
+		if m.K == "set" && (m.VK == "self" || m.VK == "other" || m.VK == "other+8" || strings.HasPrefix(m.VK, "redirect-")) {
 			lab["self-or-cross-reference"] = true
 		}
 	}
